@@ -16,7 +16,7 @@ View == <<i>>
 
 TInit == /\ Init /\ i = 0
          /\ tr = ndJsonDeserialize(IOEnv.VERIF_TRACE_FILE)
-         /\ cnt = [decl |-> 0, conv |-> 0, convJudged |-> 0, convFail |-> 0, arith |-> 0, arithValue |-> 0, cmp |-> 0, cmpJudged |-> 0, cmpReverse |-> 0, cmpHash |-> 0]
+         /\ cnt = [decl |-> 0, conv |-> 0, convJudged |-> 0, convFail |-> 0, arith |-> 0, arithValue |-> 0, arithSum |-> 0, cmp |-> 0, cmpJudged |-> 0, cmpReverse |-> 0, cmpHash |-> 0]
 E == tr[i + 1]
 Expect == IF E.e = "conv" /\ E.out = "ok" /\ JudgedC(E) THEN NetExpected(E.a, E.b, size) ELSE 0
 Rep(S) == \A c \in S : PrintT("@@BAD " \o ToJson([i |-> i + 1, clause |-> c, id |-> E.id, expected |-> Expect]))
@@ -33,8 +33,10 @@ TNext ==
        [] E.e = "conv" -> Rep(FailBad(E)) /\ ConvFail(E) /\ Bump1("convFail")
        [] E.e = "arith" ->
             /\ Rep(ArithBad(E)) /\ UNCHANGED lvars
-            /\ IF E.out = "ok" /\ E.hr /\ E.op \in {"mul", "div"} /\ E.rt = "q" /\ JudgedQ(E.l) /\ JudgedQ(E.r) /\ JudgedQ(E.res) /\ NZ(E.l) /\ NZ(E.r) /\ NZ(E.res)
-               THEN Bump("arith", "arithValue") ELSE Bump1("arith")
+            /\ LET j == E.out = "ok" /\ E.hr /\ E.rt = "q" /\ JudgedQ(E.l) /\ JudgedQ(E.r) /\ JudgedQ(E.res) /\ NZ(E.l) /\ NZ(E.r) /\ NZ(E.res) IN
+               IF j /\ E.op \in {"mul", "div"} THEN Bump("arith", "arithValue")
+               ELSE IF j /\ E.op \in {"add", "sub"} /\ DPad(E.l.u.d) = DPad(E.r.u.d) THEN Bump("arith", "arithSum")
+               ELSE Bump1("arith")
        [] E.e = "cmp" ->
             /\ Rep(CmpBad(E)) /\ UNCHANGED lvars
             /\ LET j == DPad(E.l.u.d) = DPad(E.r.u.d) /\ Order(E.l, E.r) # 0
